@@ -13,6 +13,7 @@ HEADER = 'From WM Require Import Base.Prelude RouterLife.Model RouterLife.Monito
 FIXED_D4 = True
 FIXED_D14 = True
 FIXED_D15 = True
+FIXED_D16 = True      # C06's repair bc235ce: Close releases and removes never-started handlers
 
 CODES = {
     1: ('C10/running-before-subscribed', 'Running() was closed while a handler registered before Run had no subscription'),
@@ -294,7 +295,7 @@ def map_scenario(sc):
 def case_term(m):
     labs = ['(%s, %s)' % (l, 'None' if e is None else 'Some %s' % C.coq_list(['(%s)' % x if ' ' in x else x for x in e])) for l, e in m.labels]
     hist = ['(%s)' % t if ' ' in t else t for t, _ in m.hist]
-    return '(LC %s %s %s %s %s)' % (C.coq_bool(FIXED_D4), C.coq_bool(FIXED_D14), C.coq_bool(FIXED_D15), C.coq_list(labs), C.coq_list(hist))
+    return '(LC %s %s %s %s %s %s)' % (C.coq_bool(FIXED_D4), C.coq_bool(FIXED_D14), C.coq_bool(FIXED_D15), C.coq_bool(FIXED_D16), C.coq_list(labs), C.coq_list(hist))
 
 def evaluate(pid, name, scs):
     mapped = [map_scenario(sc) for sc in scs]
@@ -397,7 +398,7 @@ def run(ctx):
     run_family(ctx, res)
     res.rule = RULE
     res.extra['anchor_drift'] = C.anchor_hashes(['message/router.go'])
-    res.extra['model_variant'] = dict(fix4=FIXED_D4, fix14=FIXED_D14, fix15=FIXED_D15)
+    res.extra['model_variant'] = dict(fix4=FIXED_D4, fix14=FIXED_D14, fix15=FIXED_D15, fix16=FIXED_D16)
     return res
 
 def search(ctx, res):
